@@ -32,6 +32,8 @@ md, prefix = sys.argv[2], sys.argv[4] + "."
 try:
     journal(md, prefix, "log", "start\n")
     args = json.load(open(os.path.join(md, "_args")))
+    if os.path.exists(os.path.join(os.path.dirname(os.path.abspath(__file__)), "fail.flag")):
+        raise RuntimeError("told to fail")
     time.sleep(args.get("delay") or 0)
     json.dump({"n": args.get("delay")}, open(os.path.join(md, "_outs"), "w"))
     journal(md, prefix, "complete", "complete\n")
@@ -166,27 +168,18 @@ func c15E2E(args []string) {
 		say("FAIL first_instance_disturbed err=%v finalstate=%v lock=%v", err, m.exists("psA", "_finalstate"), m.exists("psA", "_lock"))
 	}
 
-	// ---- scenario 2: interrupted pipestance, re-attach with edited library
-	m.write("inv.mro", inv(2), 0o644)
-	first = m.cmd(context.Background(), "psB")
-	first.Start()
-	if !m.waitFor("psB", "_lock", 20*time.Second) || !m.waitFor("psB", "P/SLOW/fork0/chnk0/_jobinfo", 20*time.Second) {
-		say("skip interrupted_setup the job did not start in time")
-		first.Process.Kill()
-		first.Wait()
+	// ---- scenario 2: a pipestance whose stage failed (no process is left
+	// behind, the lock is released), re-attach with edited library
+	m.write("inv.mro", inv(1), 0o644)
+	m.write("lib/fail.flag", "x", 0o644)
+	rc = m.run("psB", 60*time.Second)
+	if rc > 0 && !m.exists("psB", "_lock") && !m.exists("psB", "_finalstate") && m.exists("psB", "_mrosource") {
+		say("ok lock_released_after_failure exit=%d", rc)
+	} else {
+		say("skip failed_setup exit=%d lock=%v finalstate=%v", rc, m.exists("psB", "_lock"), m.exists("psB", "_finalstate"))
 		return
 	}
-	first.Process.Signal(syscall.SIGINT)
-	first.Wait()
-	if m.exists("psB", "_lock") {
-		say("FAIL lock_left_behind_after_sigint _lock still present after the holder handled SIGINT")
-		os.Remove(filepath.Join(m.work, "psB", "_lock"))
-	} else {
-		say("ok lock_released_on_sigint")
-	}
-	if m.exists("psB", "_finalstate") {
-		say("skip interrupted_setup pipestance already complete")
-	}
+	os.Remove(filepath.Join(m.lib, "fail.flag"))
 	// semantic edit of the library: an argument value inside the pipeline
 	m.write("lib/lib.mro", c15Lib("fastq", "", "", "2"), 0o644)
 	rc = m.run("psB", 30*time.Second)
@@ -205,14 +198,14 @@ func c15E2E(args []string) {
 	}
 	// reformatting the invocation file itself (the byte comparison with _invocation)
 	m.write("lib/lib.mro", c15Lib("fastq", "", "", "1"), 0o644)
-	m.write("inv.mro", strings.Replace(inv(2), "    delay = 2,", "    delay =   2,  # two seconds", 1), 0o644)
+	m.write("inv.mro", strings.Replace(inv(1), "    delay = 1,", "    delay =   1,  # one second", 1), 0o644)
 	rc = m.run("psB", 30*time.Second)
 	if rc == 0 {
 		say("ok invocation_reformat_accepted")
 	} else {
 		say("FAIL cosmetic_refused_invocation_file_text exit=%d: the invocation file with changed spacing and a comment is refused (bytes compared with _invocation)", rc)
 	}
-	m.write("inv.mro", inv(2), 0o644)
+	m.write("inv.mro", inv(1), 0o644)
 	if m.exists("psB", "_finalstate") {
 		say("skip cosmetic_library_edit pipestance already complete")
 		return
